@@ -217,7 +217,7 @@ func VerifH_C03_wholeDocument() {
 		toks = append(toks, vXMLTok{Kind: 0, Name: "osm", Attrs: []vXMLAttr{{"generator", "g"}, {"version", "0.6"}}})
 		for i := 0; i < n; i++ {
 			noise()
-			name, o := c03Object(vRange("kind", 0, 6), int64(i+1))
+			name, o := c03Object(vRange("kind", 0, 6), int64(i)) // ids from 0: zero is a legal id
 			toks = append(toks, vXMLTok{Kind: 0, Name: name, Model: o})
 			order = append(order, o)
 			switch x := o.(type) {
@@ -270,7 +270,13 @@ func VerifH_C03_wholeDocument() {
 		for i := 0; i < n; i++ {
 			noise()
 			typ := []osm.ActionType{osm.ActionCreate, osm.ActionModify, osm.ActionDelete}[vRange("action", 0, 2)]
-			toks = append(toks, vXMLTok{Kind: 0, Name: "action", Attrs: []vXMLAttr{{"type", string(typ)}}})
+			// container attributes: <action> may carry more than its type, <old>/<new> their own
+			cattr := vRange("containerAttributes", 0, 1) == 1
+			aattrs := []vXMLAttr{{"type", string(typ)}}
+			if cattr {
+				aattrs = append(aattrs, vXMLAttr{"generator", "ag"})
+			}
+			toks = append(toks, vXMLTok{Kind: 0, Name: "action", Attrs: aattrs})
 			a := osm.Action{Type: typ}
 			if typ == osm.ActionCreate {
 				noise()
@@ -282,17 +288,25 @@ func VerifH_C03_wholeDocument() {
 			} else {
 				kind := 1 + vRange("kind", 0, 2)
 				noise()
-				toks = append(toks, vXMLTok{Kind: 0, Name: "old"})
+				oldTok, newTok := vXMLTok{Kind: 0, Name: "old"}, vXMLTok{Kind: 0, Name: "new"}
+				if cattr {
+					oldTok.Attrs = []vXMLAttr{{"generator", "og"}}
+					newTok.Attrs = []vXMLAttr{{"version", "nv"}}
+				}
+				toks = append(toks, oldTok)
 				noise()
 				name, o1 := c03Object(kind, int64(10*i+1))
 				toks = append(toks, vXMLTok{Kind: 0, Name: name, Model: o1})
 				noise()
-				toks = append(toks, vXMLTok{Kind: 1, Name: "old"}, vXMLTok{Kind: 0, Name: "new"})
+				toks = append(toks, vXMLTok{Kind: 1, Name: "old"}, newTok)
 				noise()
 				_, o2 := c03Object(kind, int64(10*i+2))
 				toks = append(toks, vXMLTok{Kind: 0, Name: name, Model: o2}, vXMLTok{Kind: 1, Name: "new"})
 				order = append(order, o1, o2)
 				a.Old, a.New = &osm.OSM{}, &osm.OSM{}
+				if cattr {
+					a.Old.Generator, a.New.Version = "og", "nv"
+				}
 				a.Old.Append(o1)
 				a.New.Append(o2)
 			}
